@@ -57,7 +57,11 @@ def replay_case(lib, tid, case):
     h = Hist(lib, tid, case)
     for p in ('p1', 'p2'):
         h.parser(p)
-    for o in case['hist']:
+    mid = case.get('mid', [])
+    for n, o in enumerate(case['hist']):
+        # evaluations interleaved with the registrations: a name is used before it is (re)bound
+        for p, ast in (mid[n] if n < len(mid) else []):
+            h.parse(p, ast)
         if o['k'] == 'setvar':
             h.setvar(o['p'], o['name'], o['x'])
         else:
@@ -128,7 +132,16 @@ def random_case(rng, i):
         else:
             x = F.call(rng.choice(fns + [rand_name(rng).upper() + 'Q']), F.num('2'), F.var(rng.choice(names)))
         probes.append((p, rng.choice(contexts(x)[:1] * 3 + contexts(x))))
-    return {'hist': hist, 'probes': probes}
+    mid = []
+    for _ in hist:
+        m = []
+        for _ in range(rng.choice([0, 0, 1, 2])):
+            p = rng.choice(['p1', 'p2', 'p3'])
+            x = F.var(rng.choice(names)) if rng.random() < 0.5 else \
+                F.call(rng.choice(fns), F.num('2'), F.var(rng.choice(names)))
+            m.append((p, x))
+        mid.append(m)
+    return {'hist': hist, 'probes': probes, 'mid': mid}
 
 
 def resolve_trace(lib, names, tid):
@@ -173,9 +186,12 @@ def main(tier, replay=None):
     rng = random.Random(run.seed)
     probes = all_probes()
     traces = []
+    midset = [(p, a) for p in ('p1', 'p2') for a in (F.var('va'), F.var('vb'), F.call('FA', F.num('2')),
+                                                     F.call('SUM', F.num('2'), F.num('3')))]
     for c in hists:
         pr = probes if not quick else rng.sample(probes, 10)
-        traces.append(replay_case(lib, len(traces) + 1, {'hist': c['hist'], 'probes': pr}))
+        mid = [midset if not quick else rng.sample(midset, 3) for _ in c['hist']]
+        traces.append(replay_case(lib, len(traces) + 1, {'hist': c['hist'], 'probes': pr, 'mid': mid}))
     for i in range(1500 if quick else 30000):
         traces.append(replay_case(lib, len(traces) + 1, random_case(rng, i)))
     traces.append(resolve_trace(lib, names, len(traces) + 1))
